@@ -162,6 +162,10 @@ func (state *State) ClearInSync() {
 
 	state.wasInSync = false
 	state.isInSync = false
+
+	// The peer's headers have to be confirmed in sync again. Otherwise a block that is already being
+	// processed marks the node as in sync while the headers that caused this are still missing.
+	state.pendingSync = false
 }
 
 func (state *State) WasInSync() bool {
